@@ -67,6 +67,9 @@ var paths = []string{"", "/", "/publicKey", "/publicKey/0", "/publicKey/0/id", "
 	"/~1publicKey", "//publicKey", "/zz", "/zz/0", "/zz/0/id", "/zz/-",
 	// pointers that do not start with '/' (not RFC 6901 pointers; what the RFC 6902 library makes of them is the library's business)
 	"publicKey", "x/publicKey", "x/publicKey/0", "x/service", "x/service/0/type", "publicKey/0", " /publicKey",
+	// members named like the resolved-document vocabulary: other members all the same; written into a document that has no keys (docs[2])
+	// or no services (docs[1]) they must not come back as keys or services
+	"/verificationMethod", "/verificationMethod/0", "/services", "/publicKeys", "/authentication",
 	// member names with line breaks and other blanks below a protected member (a pattern matcher may stop at a line break)
 	"/publicKey/0/a\nb", "/service/0/a\nb", "/publicKey/0/\n", "/publicKey/0/a\rb", "/service/0/a\u2028b", "/publicKey/0/ "}
 
